@@ -247,6 +247,15 @@ impl ExpressionIndex {
     }
 }
 
+/// A member or element of a read-only value (e.g. "_event.name") is read-only too.
+fn inherit_readonly(container: &DataArc, member: &DataArc) -> DataArc {
+    let mut member = member.clone();
+    if container.is_readonly() {
+        member.set_readonly(true);
+    }
+    member
+}
+
 impl Expression for ExpressionIndex {
     fn execute(&self, context: &mut GlobalDataLock, allow_undefined: bool) -> ExpressionResult {
         let left_result = self.left.execute(context, allow_undefined);
@@ -270,7 +279,7 @@ impl Expression for ExpressionIndex {
                     Data::Map(m) => match data_arc_to_string(&index_value) {
                         Ok(key) => match m.get(&key) {
                             None => {
-                                if allow_undefined {
+                                if allow_undefined && !left_value.is_readonly() {
                                     let data_arc = create_data_arc(Data::None());
                                     m.insert(key, data_arc.clone());
                                     Ok(data_arc)
@@ -278,14 +287,14 @@ impl Expression for ExpressionIndex {
                                     Err(format!("Index '{}' not found", key))
                                 }
                             }
-                            Some(member) => Ok(member.clone()),
+                            Some(member) => Ok(inherit_readonly(&left_value, member)),
                         },
                         Err(err) => Err(err),
                     },
                     Data::Array(m) => match index_number {
                         Some(index) => match m.get(index as usize) {
                             None => Err(format!("Index not found: {} (len={})", index, m.len())),
-                            Some(value) => Ok(value.clone()),
+                            Some(value) => Ok(inherit_readonly(&left_value, value)),
                         },
                         None => Err(format!("Illegal index type '{}'", index_value)),
                     },
@@ -337,14 +346,14 @@ impl Expression for ExpressionMemberAccess {
                     | Data::None() => Err(format!("Value '{}' has no members", data)),
                     Data::Map(m) => match m.get(&self.member_name) {
                         None => {
-                            if allow_undefined {
+                            if allow_undefined && !val.is_readonly() {
                                 m.insert(self.member_name.clone(), create_data_arc(Data::None()));
                                 Ok(m.get(&self.member_name).unwrap().clone())
                             } else {
                                 Err(format!("Member {} not found", self.member_name))
                             }
                         }
-                        Some(member) => Ok(member.clone()),
+                        Some(member) => Ok(inherit_readonly(&val, member)),
                     },
                     Data::Error(err) => Err(err.clone()),
                 }
